@@ -1,10 +1,14 @@
 package main
 
 import (
+	"context"
 	"fmt"
 	"runtime"
 	"strconv"
 	"strings"
+	"sync"
+	"sync/atomic"
+	"time"
 
 	theine "github.com/Yiling-J/theine-go"
 )
@@ -23,6 +27,14 @@ import (
 // and the hash of a key (=> its shard) sampled at the start is unchanged
 // after many operations and GC cycles. A StringKey function forcing every key
 // to one hash (full collision) must not make keys alias.
+// Two more arms: (a) a StringKey function that returns the EMPTY string for
+// some keys, whose (equal) empty strings are built along different code paths
+// - a literal, an empty tail of a heap string, the result of strings.Cut - so
+// that nothing but the function's result may enter the hash; (b) keys whose
+// hashes collide, requested CONCURRENTLY while absent from a loading cache and
+// from the memory tier of a hybrid cache: each Get must come back with the
+// value of its own key (the de-duplication of concurrent loads must tell
+// colliding keys apart just as the shard map does).
 // The driver runs this on both toolchains present (go1.23.5: raw-memory xxh3
 // hasher; go1.26.8: maphash) and under -race (checkptr).
 
@@ -290,6 +302,26 @@ func runC18(r *Run) {
 	c18Run[kWithStr](r, c18Case{Type: "struct{int;string} + StringKey on ID only (partial collision)", StringKey: "id%16", N: n / 8}, func(i, p int) kWithStr {
 		return kWithStr{ID: i, Name: string([]byte("n" + strconv.Itoa(i)))}
 	}, func(k kWithStr) string { return strconv.Itoa(k.ID % 16) }, false)
+	// StringKey returning "" for every other key: equal keys carry differently built empty strings
+	heapStr := string([]byte("id=" + strconv.Itoa(n)))
+	c18Run[kWithStr](r, c18Case{Type: "struct{int;string} + StringKey = the string field, empty for half of the keys", StringKey: "name (may be empty)", N: n / 8}, func(i, p int) kWithStr {
+		if i%2 == 1 {
+			return kWithStr{ID: i, Name: string([]byte("n" + strconv.Itoa(i/16)))}
+		}
+		switch p {
+		case 0:
+			return kWithStr{ID: i, Name: ""}
+		case 1:
+			return kWithStr{ID: i, Name: heapStr[len(heapStr):]}
+		case 2:
+			_, after, _ := strings.Cut(string([]byte("id="+strconv.Itoa(i)))[:3], "=")
+			return kWithStr{ID: i, Name: after}
+		}
+		return kWithStr{ID: i, Name: strings.TrimSpace(string([]byte("  ")))}
+	}, func(k kWithStr) string { return k.Name }, false)
+	c18Concurrent(r, "loading", n/8)
+	c18Concurrent(r, "hybrid", n/8)
+	c18Concurrent(r, "hybrid-loading", n/8)
 	if modern {
 		// >= Go 1.24: maphash.Comparable — strings inside structs, floats (+0 == -0), interfaces
 		c18Run[kWithStr](r, cs("struct{int;string} (no StringKey, >=1.24)", false), func(i, p int) kWithStr {
@@ -312,4 +344,95 @@ func runC18(r *Run) {
 			return kIface{string([]byte("s" + strconv.Itoa(i)))}
 		}, nil, false)
 	}
+}
+
+// c18Concurrent: keys whose hashes collide (StringKey = ID mod 4) are requested
+// at the same moment, G at a time, while absent from memory: from a loading
+// cache (the loader computes f(key)) and from a hybrid cache whose secondary
+// store already holds f(key) for each. Every Get must return f of its own key.
+func c18Concurrent(r *Run, kind string, rounds int) {
+	const G = 8
+	f := func(k kWithStr) int64 { return int64(k.ID)*1000003 + int64(len(k.Name)) }
+	strKey := func(k kWithStr) string { return strconv.Itoa(k.ID % 4) }
+	mk := func(i int) kWithStr { return kWithStr{ID: i, Name: string([]byte("c" + strconv.Itoa(i)))} }
+	cs := c18Case{Type: "struct{int;string} + StringKey id%4, colliding keys requested concurrently (" + kind + ")", StringKey: "id%4", N: rounds * G, Toolchain: runtime.Version()}
+	var loads atomic.Int64
+	b := theine.NewBuilder[kWithStr, int64](int64(rounds*G*2)).StringKey(strKey)
+	loader := func(ctx context.Context, k kWithStr) (theine.Loaded[int64], error) {
+		loads.Add(1)
+		time.Sleep(300 * time.Microsecond) // a load takes a moment, so that the other Gets of the round arrive while it is in flight
+		return theine.Loaded[int64]{Value: f(k), Cost: 1}, nil
+	}
+	var get func(k kWithStr) (int64, bool)
+	var closer func()
+	sec := newMonSecondary[kWithStr, int64](false)
+	sec.slow.Store(true)
+	switch kind {
+	case "loading":
+		c, err := b.Loading(loader).Build()
+		if err != nil {
+			r.Broken("build: %v", err)
+			return
+		}
+		get = func(k kWithStr) (int64, bool) { v, err := c.Get(context.Background(), k); return v, err == nil }
+		closer = c.Close
+	case "hybrid":
+		c, err := b.Hybrid(sec).Build()
+		if err != nil {
+			r.Broken("build: %v", err)
+			return
+		}
+		get = func(k kWithStr) (int64, bool) { v, ok, err := c.Get(k); return v, ok && err == nil }
+		closer = c.Close
+	default:
+		c, err := b.Hybrid(sec).Loading(loader).Build()
+		if err != nil {
+			r.Broken("build: %v", err)
+			return
+		}
+		get = func(k kWithStr) (int64, bool) { v, err := c.Get(context.Background(), k); return v, err == nil }
+		closer = c.Close
+	}
+	defer closer()
+	if kind != "loading" {
+		for i := 0; i < rounds*G; i++ {
+			if kind == "hybrid" || i%2 == 0 { // hybrid-loading: half from the secondary store, half from the loader
+				_ = sec.Set(mk(i), f(mk(i)), 1, 0)
+			}
+		}
+	}
+	var wrong, missed atomic.Int64
+	var first atomic.Value
+	for rd := 0; rd < rounds; rd++ {
+		var wg sync.WaitGroup
+		start := make(chan struct{})
+		for g := 0; g < G; g++ {
+			wg.Add(1)
+			go func(i int) {
+				defer wg.Done()
+				k := mk(i)
+				<-start
+				v, ok := get(k)
+				switch {
+				case !ok:
+					missed.Add(1)
+				case v != f(k):
+					wrong.Add(1)
+					first.CompareAndSwap(nil, fmt.Sprintf("Get(%v) returned %d = the value of key ID %d; its own value is %d", k, v, v/1000003, f(k)))
+				}
+			}(rd*G + g)
+		}
+		close(start)
+		wg.Wait()
+	}
+	if w := wrong.Load(); w > 0 {
+		r.Violate("key-returned-another-keys-value/concurrent-misses-of-colliding-keys/"+kind, fmt.Sprintf("%s on %s: %d of %d concurrent Gets of absent keys with colliding hashes returned another key's value (first: %v)", cs.Type, cs.Toolchain, w, rounds*G, first.Load()),
+			map[string]any{"case": cs, "wrong": w, "loader_runs": loads.Load()})
+	}
+	// a miss is not this property's business (nothing aliased); it is counted for the evidence
+	r.Count("concurrent_colliding_gets_missed", missed.Load())
+	r.Eval(1)
+	r.Count("concurrent_colliding_gets", int64(rounds*G))
+	r.Distinct(fmt.Sprintf("%s/%s/strkey=%s", cs.Type, cs.Toolchain, cs.StringKey))
+	r.Sample(10, map[string]any{"case": cs, "wrong": wrong.Load(), "missed": missed.Load(), "loader_runs": loads.Load()})
 }
